@@ -18,6 +18,7 @@ type GenOpts struct {
 	Recursive   bool // self-referential structs via optional fields / containers
 	NonStrict   bool // omit requiredness on some fields, compile non-strict
 	Small       bool // fewer / smaller definitions (faster labs)
+	RedactRate  int  // when > 0, one field in RedactRate carries go.redact and one in 2*RedactRate go.nolog (C15 labs)
 	Hostile     bool // draw identifiers and file names from the hostile pool (Go keywords, initialisms, generated-method names, std package names)
 	BackEdges   bool // cyclic includes: later files include earlier ones and typedef their types (compile-only properties)
 	// Avoid lists defect classes the generator must not produce (known,
@@ -406,7 +407,8 @@ func (g *gctx) genStruct() *Def {
 		selfRef := false
 		if g.o.Recursive && g.chance(1, 12, "selfref") {
 			self := &Type{K: TRef, Ref: &Ref{File: g.file.Path, Name: d.Name}}
-			if g.chance(1, 2, "selflist") {
+			if kind == DUnion || g.chance(1, 2, "selflist") {
+				// a union member of the union's own type is only inhabited through a container
 				f.Type = &Type{K: TList, Elem: self}
 			} else {
 				f.Type = self
@@ -454,10 +456,14 @@ func (g *gctx) fieldAnnots(f *Field, usedGo map[string]bool) {
 	if g.chance(1, 8, "golabel") {
 		a["go.label"] = "lbl_" + f.Name
 	}
-	if g.chance(1, 6, "redact") {
+	rr, nr := 6, 8
+	if g.o.RedactRate > 0 {
+		rr, nr = g.o.RedactRate, 2*g.o.RedactRate
+	}
+	if g.chance(1, rr, "redact") {
 		a["go.redact"] = "\x00"
 	}
-	if g.chance(1, 8, "nolog") {
+	if g.chance(1, nr, "nolog") {
 		a["go.nolog"] = "\x00"
 	}
 	if g.chance(1, 10, "gotag") {
